@@ -31,9 +31,7 @@ Proof.
   assert (Hhex: forall w n acc, ~ In 10 acc -> ~ In 10 (hex_fixed w n acc)).
   { induction w as [|w IH]; intros n acc Ha; cbn [hex_fixed]; [exact Ha|].
     apply IH. intros [H|H]; [|tauto]. unfold hex_digit in H.
-    destruct (N.ltb (n mod 16) 10) eqn:El.
-    - apply N.ltb_lt in El. lia.
-    - apply N.ltb_ge in El. lia. }
+    destruct (N.ltb (N.land n 15) 10) eqn:El; lia. }
   destruct (N.eqb c 13); [intros [H|[H|[]]]; discriminate|].
   destruct (N.ltb c 32 || N.eqb c 127).
   { intros [H|[H|H]]; try discriminate. revert H. apply Hhex. auto. }
